@@ -48,13 +48,16 @@ func c19Shapes() (cargen.Shape, cargen.Shape) {
 		blk(431_990, []cargen.TxShape{t([]int{0}, nil, false, false), t([]int{1}, nil, true, false)}),
 		blk(431_992), // block without entries
 		blk(431_995, []cargen.TxShape{t([]int{0, 1}, nil, false, true)}, []cargen.TxShape{t([]int{2}, []int{0}, false, false), t(nil, nil, true, true)}),
-		blk(431_999, []cargen.TxShape{t([]int{1}, []int{2}, false, false)}),
+		blk(431_999, []cargen.TxShape{t([]int{1}, []int{2}, false, false),
+			// failed with an instruction error that has no payload, and with a transaction error that has none
+			{Accounts: []int{0}, Failed: true, FailKind: 1}, {Accounts: []int{2}, Failed: true, FailKind: 2}}),
 	}}
 	e2 := cargen.Shape{Epoch: 2, Blocks: []cargen.BlockShape{
 		blk(0, []cargen.TxShape{t([]int{2}, nil, false, false), t([]int{0}, nil, true, false)}),
 		blk(1, []cargen.TxShape{t(nil, []int{1}, false, false)}),
 		blk(4, []cargen.TxShape{t([]int{0, 2}, nil, false, true), t([]int{1, 2}, nil, false, false), t([]int{0, 1, 2}, nil, false, false)}),
-		blk(6, []cargen.TxShape{t([]int{9}, nil, false, false)}),
+		// old archives carry no position index: three such transactions in one slot, two of them for account 1
+		blk(6, []cargen.TxShape{t([]int{9}, nil, false, false), {Accounts: []int{1}, NoIndex: true}, {Accounts: []int{0}, NoIndex: true}, {Accounts: []int{1, 2}, NoIndex: true}}),
 		blk(8, func() []cargen.TxShape {
 			var out []cargen.TxShape
 			for i := 0; i < 120; i++ { // more than the 100-per-account batch of the address-index path
@@ -454,6 +457,55 @@ func TestVerif_C19(t *testing.T) {
 				}
 			}
 		}
+	}
+	// ---------- only one of the two epochs has an address index ----------
+	// "The set of transactions streamed does not depend on whether an address index is loaded": that includes a
+	// range that crosses an epoch with an index and one without.
+	for mi, which := range []string{"index-for-epoch-1-only", "index-for-epoch-2-only"} {
+		cache := vkNewCache()
+		ea, err1 := vkLoadEpoch(e1.writeConfig(vkConfigOpts{Name: "mixed-" + which, NoGsfa: mi == 1}), cache)
+		eb, err2 := vkLoadEpoch(e2.writeConfig(vkConfigOpts{Name: "mixed-" + which, NoGsfa: mi == 0}), cache)
+		if err1 != nil || err2 != nil {
+			R.Internal("load mixed world: %v %v", err1, err2)
+			return
+		}
+		mMixed := vkNewMulti(2, ea, eb)
+		for _, rg := range ranges {
+			for inc := 1; inc < 1<<nU; inc++ {
+				mine := vkit.Mine(caseIdx)
+				caseIdx++
+				if !mine {
+					continue
+				}
+				end := rg.end
+				req := wire(&old_faithful_grpc.StreamTransactionsRequest{StartSlot: rg.start, EndSlot: &end,
+					Filter: &old_faithful_grpc.StreamTransactionsFilter{AccountInclude: c19Accounts(inc, nU)}}).(*old_faithful_grpc.StreamTransactionsRequest)
+				var want []string
+				for _, tx := range all {
+					if tx.Slot >= rg.start && tx.Slot <= rg.end && (c19Filter{Include: inc}).keep(tx, nU, true, true) {
+						want = append(want, tx.Sig.String()[:8])
+					}
+				}
+				q := map[string]interface{}{"rpc": "StreamTransactions", "scenario": "mixed-index", "which": which, "start": rg.start, "end": rg.end, "include": inc}
+				st := &vkTxStream{vkStreamBase: vkBase0()}
+				var serr error
+				if !guard("StreamTransactions", q, func() { serr = mMixed.StreamTransactions(req, st) }) {
+					continue
+				}
+				var got []string
+				for _, r := range st.Got {
+					if r.Transaction != nil && len(r.Transaction.Transaction) > 0 {
+						got = append(got, sigOf(r.Transaction.Transaction).String()[:8])
+					}
+				}
+				R.Case(len(want) > 0, "")
+				if serr != nil || fmt.Sprint(got) != fmt.Sprint(want) {
+					R.Violation("C19|StreamTransactions|mixed-index|"+which, fmt.Sprintf("StreamTransactions[%d,%d] include=%v with %s: want %v got %v err=%v", rg.start, rg.end, c19Accounts(inc, nU), which, want, got, serr), q)
+				}
+			}
+		}
+		ea.Close()
+		eb.Close()
 	}
 	// ---------- more matching transactions than one batch of the address-index path ----------
 	if vkit.Mine(caseIdx) {
